@@ -34,3 +34,17 @@ ra_all!(t, t, R_SET, 7, 8, 8);
 ra_all!(t, q, R_MAP, 8, 9, 9);
 ra_all!(t, t, R_MESSAGE, 12, 13, 13);
 ra_all!(t, t, R_STRUCT_BEGIN_END, 2, 4, 4);
+
+// default skipper on fixed-width types, symbolic length (every truncation point of the value)
+macro_rules! sf {
+    ($tier:ident, $p:ty, $pn:ident, $ty:expr, $tyn:ident, $w:expr, $n:expr) => { paste! {
+        crate::proof!{ #[kani::unwind(2)] fn [<c09_ $tier _skipfixed_ $tyn _ $pn>]() { total::skip_fixed_prefix::<$p, $ty, $w, $n>() } }
+    }};
+}
+sf!(q, PBin, bin, 16, uuid, 16, 17);
+sf!(q, PBin, bin, 10, i64, 8, 9);
+sf!(q, PBin, bin, 4, double, 8, 9);
+sf!(t, PBin, bin, 8, i32, 4, 5);
+sf!(t, PBin, bin, 6, i16, 2, 3);
+sf!(t, PLe, le, 16, uuid, 16, 17);
+sf!(t, PLe, le, 10, i64, 8, 9);
